@@ -60,8 +60,36 @@ def cmd_replay(args):
 
 
 def cmd_setup(args):
-    for d in (C.BUILD, C.OUT, C.EVIDENCE):
+    """create the work directories and warm the build cache for the current tree (quick tier binaries)"""
+    import concurrent.futures as cf
+    import time
+    from vlib import layout_checks, footprint_checks, cmp_checks, emplace_checks, probe_checks
+    t0 = time.time()
+    for d in (C.BUILD, C.OUT, C.EVIDENCE, os.path.join(C.OUT, "tmp"), os.path.join(C.OUT, "runs")):
         os.makedirs(d, exist_ok=True)
+    jobs = {}
+    for prop in sorted(ENGINE_PROPS):
+        for j in engine_checks.binary_jobs(engine_checks.spec(prop, "quick")):
+            jobs[j[2]] = j
+    for l in cmp_checks.QUICK:
+        jobs["cmp_%s" % l] = ("cmp.cpp", ["CFG_LIST=%s" % l], "cmp_%s" % l)
+    for k in emplace_checks.QUICK:
+        jobs["emp_%d" % k] = ("emplace.cpp", ["CFG_PAIR=%d" % k], "emp_%d" % k)
+    lists = layout_checks.family("quick")
+    import hashlib, json as _json
+    tag = hashlib.sha256(_json.dumps(lists).encode()).hexdigest()[:10]
+    for k, path, n in layout_checks.gen_tus(lists, 32, tag):
+        jobs["layout_%s_%d" % (tag, k)] = ("layout.cpp", ["LAYOUT_INC=%s" % path], "layout_%s_%d" % (tag, k), layout_checks.LAYOUT_FLAGS)
+    res = C.build_many(list(jobs.values()))
+    bad = [n for n, (path, dis, log) in res.items() if path is None]
+    rt, _ = footprint_checks.build_rt()
+    with cf.ThreadPoolExecutor(max_workers=C.NCPU) as ex:
+        futs = [ex.submit(footprint_checks.build_foot, l, "AE", rt) for l in ["P1", "F1", "F3", "V1", "V3", "M1"]]
+        futs.append(ex.submit(footprint_checks.build_readers))
+        futs += [ex.submit(probe_checks.cell_table, l) for l in engine_checks.ALL_LISTS]
+        for f in futs:
+            f.result()
+    print("setup: %d harness binaries built in %.0fs%s" % (len(res), time.time() - t0, (", NOT built: %s" % bad) if bad else ""))
     return 0
 
 
